@@ -747,6 +747,10 @@ impl Universe {
         Ok(u)
     }
 
+    pub fn worker_tid(&self, i: usize) -> i32 {
+        self.workers.get(i).map(|w| w.tid).unwrap_or(0)
+    }
+
     fn widx(&self, tid: i32) -> Option<usize> {
         self.workers.iter().position(|w| w.tid == tid)
     }
